@@ -25,6 +25,7 @@ EXPLANATION = (
     "the size it was asked about before delegating to it."
     ' Added after seed round 3: (9) ACCUM - the row offsets of Pile.move_cursor_to_coords / mouse_event and ListBox.mouse_event advance for every item passed; (10) Edit.move_cursor_to_coords compares the requested row only with rows derived from the layout (position_coords / get_line_translation).'
     ' Round 4: (11) OPTCALL (see C08.13); C09.10 now requires both bounds of the requested row and reports a missing one.'
+    ' Round-4 triage: (12) Columns hit-testing skips hidden columns like render(); (13) ScrollBar.mouse_event subtracts the bar width from the column under the same side test under which render() draws the bar on the left.'
 )
 NOT_DECIDED = (
     "Agreement with the rendered canvas cursor (needs canvas semantics), loops of Pile/Columns/ListBox that accumulate offsets (equivalence of different loop shapes is not syntactic), "
@@ -446,6 +447,49 @@ def rule_hidden_columns(ctx: Ctx) -> RuleResult:
     return rr
 
 
+def rule_scrollbar_side(ctx: Ctx) -> RuleResult:
+    """ScrollBar.render() joins the wrapped widget's canvas and the bar in an order that depends on the side
+    (`CanvasJoin(reversed(combinelist))` for the left side): with the bar on the left the child is drawn one bar
+    width to the right.  mouse_event() forwards (col, row) to the child and therefore has to undo that shift
+    under the same side test: a branch on _scrollbar_side on which `col` is reduced by the bar width (the view
+    width minus the width the child was rendered at)."""
+    from ..rules.defuse import DefUse
+    from ..rules.util import linear
+
+    p = ctx.p
+    rr = RuleResult("SIB", "C09.13", "ScrollBar.mouse_event shifts the column by the bar width under the same side test under which render() draws the bar first", floor=2)
+    cls = p.cls("urwid.widget.scrollable.ScrollBar")
+    rn, me = cls.methods["render"], cls.methods["mouse_event"]
+    side_tests_r = [n for n in rn.own_nodes() if isinstance(n, (ast.If, ast.IfExp)) and any(isinstance(x, ast.Attribute) and x.attr == "_scrollbar_side" for x in ast.walk(n.test))]
+    rr.inst("render: side-dependent join", True, {"tests": [norm(t.test, 60) for t in side_tests_r]})
+    if not side_tests_r:
+        raise AnalysisError("ScrollBar.render: the test of _scrollbar_side that decides the join order was not found")
+    colp = me.params[4]
+    sizep = me.params[1]
+    side_tests_m = [n for n in me.own_nodes() if isinstance(n, ast.If) and any(isinstance(x, ast.Attribute) and x.attr == "_scrollbar_side" for x in ast.walk(n.test))]
+    du = DefUse(me)
+    shifted = False
+    for t in side_tests_m:
+        for st in t.body + t.orelse:
+            for a in ast.walk(st):
+                val = None
+                if isinstance(a, ast.AugAssign) and isinstance(a.target, ast.Name) and a.target.id == colp and isinstance(a.op, ast.Sub):
+                    val = a.value
+                elif isinstance(a, ast.Assign) and any(isinstance(x, ast.Name) and x.id == colp for x in a.targets) and isinstance(a.value, ast.BinOp) and isinstance(a.value.op, ast.Sub) and isinstance(a.value.left, ast.Name) and a.value.left.id == colp:
+                    val = a.value.right
+                if val is None:
+                    continue
+                at = du.node_of(a) or (du.cfg.stmt_nodes(a) or [None])[0]
+                L = linear(du.expand(val, at)) if at is not None else linear(val)
+                # bar width = view width - child width: one positive term mentioning the size parameter, one negative term
+                if L and any(v == 1 and sizep in k for k, v in L.items()) and any(v == -1 for v in L.values()):
+                    shifted = True
+    rr.inst("mouse_event: column shifted under the side test", True, {"side_tests": [norm(t.test, 60) for t in side_tests_m], "shift_found": shifted})
+    if not shifted:
+        rr.add(finding("SIB", me, me.node, "ScrollBar.mouse_event forwards the column to the wrapped widget without subtracting the bar width on the branch where render() draws the bar on the left: with side='left' every click reaches the child one bar width too far right", construct="mouse column not shifted for a left-side bar"))
+    return rr
+
+
 def run(ctx: Ctx):
     p = ctx.p
     return [
@@ -461,6 +505,7 @@ def run(ctx: Ctx):
         rule_edit_row_range(ctx),
         optcall.run_optcall(p, "C09.11", ("urwid.widget",), floor=35),
         rule_hidden_columns(ctx),
+        rule_scrollbar_side(ctx),
     ]
 
 
@@ -472,6 +517,8 @@ _PIL = "urwid/widget/pile.py"
 _COL = "urwid/widget/columns.py"
 _BOX = "urwid/widget/box_adapter.py"
 MUTANTS = [
+    Mut("scrollbar-left-click-unshifted", "urwid/widget/scrollable.py", "ScrollBar.mouse_event", "        if self._scrollbar_side == SCROLLBAR_LEFT:\n            # the wrapped widget is drawn to the right of the bar\n            col -= size[0] - ow_size[0]\n", "", "SIB|widget.scrollable.ScrollBar.mouse_event"),
+    Mut("twin-scrollbar-left-click-shift-spelled-out", "urwid/widget/scrollable.py", "ScrollBar.mouse_event", "            col -= size[0] - ow_size[0]\n", "            bar = size[0] - ow_size[0]\n            col = col - bar\n", twin=True),
     Mut("columns-click-counts-hidden-divider", "urwid/widget/columns.py", "Columns.mouse_event", "            if width <= 0:\n                # hidden column: not drawn, takes no divider (see render)\n                continue\n            if col < x:", "            if col < x:", "SIB|widget.columns.Columns.mouse_event"),
     Mut("columns-move-counts-hidden-divider", "urwid/widget/columns.py", "Columns.move_cursor_to_coords", "            if width <= 0:\n                # hidden column: not drawn, takes no divider (see render)\n                continue\n            end = x + width", "            end = x + width", "SIB|widget.columns.Columns.move_cursor_to_coords"),
     Mut("edit-accepts-caption-rows", "urwid/widget/edit.py", "Edit.move_cursor_to_coords", "        _top_x, top_y = self.position_coords(maxcol, 0)\n        if y < top_y or y >= len(trans):", "        if not 0 <= y < len(trans):", "KIND|widget.edit.Edit.move_cursor_to_coords"),
